@@ -153,4 +153,282 @@ theorem uGndSlab_finite (F : Fns) (hpi : 0 < F.pi) (z dt bp psi : Rat) (hB : 0 <
     intro h; linarith
   simp [uGndSlab, h1, h2, h3]
 
+/-! ## the remaining ground and partition branches under the sanity conditions -/
+
+theorem rsum_pos_of_pos {l : List Rat} (hne : l ≠ []) (h : ∀ x ∈ l, 0 < x) : 0 < rsum l := by
+  cases l with
+  | nil => exact absurd rfl hne
+  | cons a t =>
+    rw [rsum_cons]
+    have h0 : 0 ≤ rsum t := rsum_nonneg (fun x hx => le_of_lt (h x (by simp [hx])))
+    have := h a (by simp)
+    linarith
+
+/-- **equivalent thickness of the slabs of a space** (`slab_d_t`): with slabs of positive area the area-weighted mean divides by a
+    positive total and is itself positive (each term is at least 0.3 + λ(Rsi + Rse) times its area) -/
+theorem slabDt_finite (s : Space) (walls : List Wall) (db : ConsDb) (dt : NV)
+    (harea : ∀ w ∈ walls, 0 < w.area)
+    (hres : ∀ w ∈ walls, ∀ c r, db.getWallCons w.cons = some c → c.resistance db = some r → 0 ≤ r)
+    (h : s.slabDt walls db = some dt) : dt.nf = false ∧ 0 < dt.v := by
+  unfold Space.slabDt at h
+  dsimp only at h
+  split at h
+  · exact absurd h (by simp)
+  · rename_i hne
+    have hsub : ∀ w ∈ (s.wallsOf walls).filter (fun w => w.tiltC = .bottom && w.bounds = .ground), w ∈ walls := by
+      intro w hw
+      have := (List.mem_filter.mp hw).1
+      unfold Space.wallsOf at this
+      exact (List.mem_filter.mp this).1
+    generalize hsl : (s.wallsOf walls).filter (fun w => w.tiltC = .bottom && w.bounds = .ground) = slabs at h hne hsub
+    have hne2 : slabs ≠ [] := by intro e; rw [e] at hne; exact hne rfl
+    have hA : 0 < rsum (slabs.map Wall.area) := by
+      apply rsum_pos_of_pos (by simpa using hne2)
+      intro x hx
+      obtain ⟨w, hw, rfl⟩ := List.mem_map.mp hx
+      exact harea w (hsub w hw)
+    have hE : 0 < rsum (slabs.map (fun w =>
+        w.area * (3 / 10 + LAMBDA_GND * (RSI_DESC + ((db.getWallCons w.cons).bind (fun c => c.resistance db)).getD 0 + RSE)))) := by
+      apply rsum_pos_of_pos (by simpa using hne2)
+      intro x hx
+      obtain ⟨w, hw, rfl⟩ := List.mem_map.mp hx
+      have ha := harea w (hsub w hw)
+      have hr : 0 ≤ ((db.getWallCons w.cons).bind (fun c => c.resistance db)).getD 0 := by
+        cases hc : db.getWallCons w.cons with
+        | none => simp
+        | some c =>
+          cases hrr : c.resistance db with
+          | none => simp [hrr]
+          | some r => simpa [hrr] using hres w (hsub w hw) c r hc hrr
+      apply mul_pos ha
+      have : (0 : Rat) < 3 / 10 + LAMBDA_GND * (RSI_DESC + 0 + RSE) := by unfold LAMBDA_GND RSI_DESC RSE; norm_num
+      have hl : (0 : Rat) ≤ LAMBDA_GND := by unfold LAMBDA_GND; norm_num
+      nlinarith
+    simp only [Option.some.injEq] at h
+    subst h
+    refine ⟨by simpa using ne_of_gt hA, div_pos hE hA⟩
+
+/-- **perimeter insulation term** (`slab_psi_gnd_ext`): for a positive equivalent thickness and non-negative insulation data both
+    logarithms have arguments ≥ 1 and both quotients a positive denominator -/
+theorem slabPsi_finite (F : Fns) (m : Model) (dt : Rat) (hdt : 0 < dt)
+    (hD : 0 ≤ m.info.dPerimInsulation) (hR : 0 ≤ m.info.rnPerimInsulation) : (slabPsi F m dt).nf = false := by
+  have hd1 : 0 ≤ m.info.rnPerimInsulation * (LAMBDA_GND - LAMBDA_INS) :=
+    mul_nonneg hR (by unfold LAMBDA_GND LAMBDA_INS; norm_num)
+  have h1 : ¬ dt = 0 := ne_of_gt hdt
+  have h2 : ¬ dt + m.info.rnPerimInsulation * (LAMBDA_GND - LAMBDA_INS) = 0 := by intro h; linarith
+  have h3 : ¬ 1 + m.info.dPerimInsulation / dt ≤ 0 := by
+    have : 0 ≤ m.info.dPerimInsulation / dt := div_nonneg hD (le_of_lt hdt)
+    intro h; linarith
+  have h4 : ¬ 1 + m.info.dPerimInsulation / (dt + m.info.rnPerimInsulation * (LAMBDA_GND - LAMBDA_INS)) ≤ 0 := by
+    have : 0 ≤ m.info.dPerimInsulation / (dt + m.info.rnPerimInsulation * (LAMBDA_GND - LAMBDA_INS)) :=
+      div_nonneg hD (by linarith)
+    intro h; linarith
+  simp [slabPsi, h1, h2, h3, h4]
+
+/-- **buried walls** (`u_value_gnd_wall`): with a positive air-contact U, a depth ≥ 0 and a positive equivalent floor thickness no
+    division fails — the net height divides only when the wall rises above the ground, and then it is larger than the depth -/
+theorem uGndWall_finite (F : Fns) (z uw dt hNet : Rat) (huw : 0 < uw) (hz : 0 ≤ z) (hdt : 0 < dt) :
+    (uGndWall F z uw dt hNet).nf = false := by
+  unfold uGndWall
+  by_cases hzz : rabs z < 1 / 100
+  · rw [if_pos hzz]
+  · rw [if_neg hzz]
+    have hzpos : 0 < z := by
+      unfold rabs at hzz
+      split at hzz
+      · linarith
+      · have : (1 : Rat) / 100 ≤ z := not_lt.mp hzz
+        have h0 : (0 : Rat) < 1 / 100 := by norm_num
+        linarith
+    have hdw : 0 < LAMBDA_GND / uw := div_pos (by unfold LAMBDA_GND; norm_num) huw
+    have hmin : 0 < rmin (LAMBDA_GND / uw) dt := by unfold rmin; split <;> assumption
+    have h1 : ¬ uw = 0 := ne_of_gt huw
+    have h2 : ¬ rmin (LAMBDA_GND / uw) dt + z = 0 := by intro h; linarith
+    by_cases hgt : hNet > z
+    · have h3 : ¬ hNet = 0 := by intro e; rw [e] at hgt; linarith
+      simp only [hgt, if_true]
+      split <;> simp [h1, h2, h3]
+    · have : rabs (0 : Rat) < f32Eps := by unfold rabs f32Eps; norm_num
+      simp only [hgt, if_false, this, if_true]
+      simp [h1, h2]
+
+/-- **partitions towards an unconditioned space** (`u_value_interior_cond_uncond`): for a wall of positive area, a construction of
+    positive total resistance, non-negative losses of the neighbour and a positive volume with a finite ventilation rate ≥ 0 the result
+    is finite -/
+theorem uCondUncond_finite (F : Fns) (ai rf ua vol n : Rat) (hai : 0 < ai) (hrf : 0 < rf) (hua : 0 ≤ ua)
+    (hvol : 0 ≤ vol) (hn : 0 ≤ n) : (uCondUncond F ai rf ua vol (.fin n)).nf = false := by
+  unfold uCondUncond
+  simp only []
+  have hh : 0 ≤ ua + 33 / 100 * (vol * n) := by
+    have : 0 ≤ vol * n := mul_nonneg hvol hn
+    linarith
+  split
+  · simp [ne_of_gt hai]
+  · rename_i hne
+    have hpos : 0 < ua + 33 / 100 * (vol * n) := lt_of_le_of_ne hh (Ne.symm hne)
+    have : 0 < rf + ai / (ua + 33 / 100 * (vol * n)) := by
+      have := div_pos hai hpos
+      linarith
+    simp [ne_of_gt this]
+
+/-- the ventilation rate entering that formula is finite and non-negative for a positive volume -/
+theorem ventOf_fin_nonneg (n : Option Rat) (vol : Rat) (hvol : 0 < vol) (hn : ∀ x, n = some x → 0 ≤ x) :
+    ∃ r, ventOf n vol = .fin r ∧ 0 ≤ r := by
+  cases n with
+  | none => exact ⟨0, rfl, le_refl _⟩
+  | some x =>
+    refine ⟨36 / 10 * x / vol, by simp [ventOf, ne_of_gt hvol], ?_⟩
+    have := hn x rfl
+    exact div_nonneg (mul_nonneg (by norm_num) this) (le_of_lt hvol)
+
+theorem rmax_ge_right (a b : Rat) : b ≤ rmax a b := by
+  unfold rmax
+  split
+  · exact le_refl _
+  · rename_i h; exact not_lt.mp h
+
+/-- **characteristic dimension** (`slab_char_dim`): never negative — a null-area slab gives 0, any other divides its area by half a
+    perimeter that is at least 1 cm -/
+theorem slabCharDim_nonneg (F : Fns) (hb : F.bias = 0) (s : Space) (walls : List Wall) (spaces : List Space) (d : Rat)
+    (h : s.slabCharDim F walls spaces = some d) : 0 ≤ d := by
+  unfold Space.slabCharDim at h
+  dsimp only at h
+  split at h
+  · exact absurd h (by simp)
+  · rename_i g _ _
+    split at h
+    · simp only [Option.some.injEq] at h; rw [← h]
+    · rename_i hg
+      simp only [Option.some.injEq] at h
+      rw [← h, Fns.r2_unbiased F hb]
+      apply round2_nonneg
+      have hgA : 0 ≤ g.area := by
+        have : (1 : Rat) / 1000 ≤ g.area := not_lt.mp hg
+        have h0 : (0 : Rat) ≤ 1 / 1000 := by norm_num
+        linarith
+      apply div_nonneg hgA
+      apply mul_nonneg (by norm_num)
+      have := rmax_ge_right (if (sideAreas s spaces (s.wallsOf walls)).1 < 1 / 1000 then 0
+        else F.r2 (polyPerimeter F g.geometry.polygon * (sideAreas s spaces (s.wallsOf walls)).2 / (sideAreas s spaces (s.wallsOf walls)).1)) (1 / 100)
+      have h0 : (0 : Rat) ≤ 1 / 100 := by norm_num
+      exact le_trans h0 this
+
+/-- **every ground element of a sane model has a finite U** (`Wall::u_value`, GROUND arm): walls of positive area, constructions of
+    non-negative resistance, non-negative perimeter insulation data, the space not above ground level by more than its own depth
+    convention (`z` is clamped at 0), and an air-contact U that does not round to 0 -/
+theorem ground_uValue_finite (F : Fns) (hb : F.bias = 0) (hpi : 0 < F.pi) (w : Wall) (m : Model) (c : WallCons) (r : Rat) (u : NV)
+    (hbd : w.bounds = .ground)
+    (hc : m.cons.getWallCons w.cons = some c) (hr : c.resistance m.cons = some r)
+    (huw : 0 < F.r2 (uExteriorRaw w.tiltC r))
+    (harea : ∀ x ∈ m.walls, 0 < x.area)
+    (hres : ∀ x ∈ m.walls, ∀ c r, m.cons.getWallCons x.cons = some c → c.resistance m.cons = some r → 0 ≤ r)
+    (hD : 0 ≤ m.info.dPerimInsulation) (hR : 0 ≤ m.info.rnPerimInsulation)
+    (h : w.uValue F m = some u) : u.nf = false := by
+  simp only [Wall.uValue, hbd, Wall.uNonInterior, hc, hr, Wall.uExterior, Option.map_some] at h
+  split at h
+  · rename_i uw sp huw2 hsp
+    simp only [Option.some.injEq] at huw2
+    split at h
+    · exact absurd h (by simp)
+    · rename_i dt hdt
+      obtain ⟨hdnf, hdpos⟩ := slabDt_finite sp m.walls m.cons dt harea hres hdt
+      have hz : 0 ≤ rmax (-sp.z) 0 := rmax_ge_right _ _
+      have hpsi := slabPsi_finite F m dt.v hdpos hD hR
+      split at h
+      · simp only [Option.some.injEq] at h; rw [← h]
+      · simp only [Option.some.injEq] at h
+        rw [← h]
+        have hcd : 0 ≤ (sp.slabCharDim F m.walls m.spaces).getD 0 := by
+          cases hq : sp.slabCharDim F m.walls m.spaces with
+          | none => simp
+          | some d => simpa using slabCharDim_nonneg F hb sp m.walls m.spaces d hq
+        have hB : 0 < dt.v + rmax (-sp.z) 0 / 2 := by linarith
+        simp [uGndSlab_finite F hpi _ _ _ _ hB hcd, hdnf, hpsi]
+      · simp only [Option.some.injEq] at h
+        rw [← h]
+        have := uGndWall_finite F (rmax (-sp.z) 0) uw dt.v (sp.heightNet F m.walls m.cons) (by rw [← huw2]; exact huw) hz hdpos
+        simp [this, hdnf]
+  · exact absurd h (by simp)
+
+/-- the losses of a space through its external and ground elements carry no failed division when none of those elements does -/
+theorem uaExt_nf (F : Fns) (m : Model) (s : Space)
+    (h : ∀ w ∈ m.walls, ∀ u, w.uNonInterior F m = some u → u.nf = false) : (s.uaExt F m).nf = false := by
+  unfold Space.uaExt
+  dsimp only
+  have hsub : ∀ w ∈ (s.wallsOf m.walls).filter (fun w => w.bounds = .ground || w.bounds = .exterior), w ∈ m.walls := by
+    intro w hw
+    have := (List.mem_filter.mp hw).1
+    unfold Space.wallsOf at this
+    exact (List.mem_filter.mp this).1
+  generalize (s.wallsOf m.walls).filter (fun w => w.bounds = .ground || w.bounds = .exterior) = ws at hsub
+  suffices H : ∀ (acc : NV), acc.nf = false → ∀ l : List Wall, (∀ w ∈ l, w ∈ m.walls) →
+      (l.foldl (fun (acc : NV) w =>
+        match w.uNonInterior F m with
+        | none => acc
+        | some u =>
+          { v := acc.v + (w.areaNet F m.windows * u.v + rsum ((m.windows.filter (fun x => x.wall = w.id)).filterMap (fun win =>
+              match (m.cons.getWinCons win.cons).bind (fun c => c.uValue F m.cons) with
+              | some uu => some (win.area * uu)
+              | none => none))), nf := acc.nf || u.nf }) acc).nf = false from H { v := 0 } rfl ws hsub
+  intro acc hacc l
+  induction l generalizing acc with
+  | nil => intro _; exact hacc
+  | cons w t ih =>
+    intro hl
+    rw [List.foldl_cons]
+    apply ih
+    · cases hu : w.uNonInterior F m with
+      | none => exact hacc
+      | some u => simp [hacc, h w (hl w (by simp)) u hu]
+    · intro x hx; exact hl x (by simp [hx])
+
+/-- what the partition formula needs from the unconditioned side -/
+def UncondOK (F : Fns) (m : Model) (s : Space) : Prop :=
+  (s.uaExt F m).nf = false ∧ 0 ≤ (s.uaExt F m).v ∧ 0 ≤ s.area m.walls * s.heightNet F m.walls m.cons ∧
+  ∃ n, (match s.nV with | some n => Vent.fin n | none => m.globalVentilationU F) = .fin n ∧ 0 ≤ n
+
+/-- **every partition of a sane model has a finite U** (`Wall::u_value`, INTERIOR arm): a wall of positive area whose construction has a
+    non-negative resistance, between spaces that resolve; when exactly one side is conditioned, the other side has finite non-negative
+    losses, a non-negative volume and a finite non-negative ventilation rate -/
+theorem partition_uValue_finite (F : Fns) (w : Wall) (m : Model) (c : WallCons) (r : Rat) (u : NV)
+    (hbd : w.bounds = .interior) (harea : 0 < w.area)
+    (hc : m.cons.getWallCons w.cons = some c) (hr : c.resistance m.cons = some r) (hr0 : 0 ≤ r)
+    (hok : ∀ s ∈ m.spaces, UncondOK F m s)
+    (h : w.uValue F m = some u) : u.nf = false := by
+  have hrsi : ∀ t, 0 < rsiOf t := rsi_pos
+  simp only [Wall.uValue, hbd, hc, hr] at h
+  split at h
+  · exact absurd h (by simp)
+  · rename_i sp hsp
+    have hspm : sp ∈ m.spaces := by unfold Model.getSpace at hsp; exact List.mem_of_find?_eq_some hsp
+    split at h
+    · simp only [Option.map_some, Option.some.injEq] at h
+      rw [← h]
+      have := hrsi w.tiltC
+      have : ¬ r + 2 * rsiOf w.tiltC = 0 := by intro e; linarith
+      simp [this]
+    · split at h
+      · exact absurd h (by simp)
+      · rename_i nid _ nx hnx
+        have hnxm : nx ∈ m.spaces := by unfold Model.getSpace at hnx; exact List.mem_of_find?_eq_some hnx
+        have hrf : 0 < r + 2 * partitionRsi (decide (sp.kind = .conditioned)) (decide (nx.kind = .conditioned)) w.tiltC :=
+          partition_denominator_pos _ _ _ r hr0
+        split at h
+        · simp only [Option.some.injEq] at h
+          rw [← h]
+          simp [ne_of_gt hrf]
+        · simp only [Option.some.injEq] at h
+          rw [← h]
+          have key : ∀ un ∈ m.spaces, ((uCondUncond F w.area
+              (r + 2 * partitionRsi (decide (sp.kind = .conditioned)) (decide (nx.kind = .conditioned)) w.tiltC)
+              (un.uaExt F m).v (un.area m.walls * un.heightNet F m.walls m.cons)
+              (match un.nV with | some n => Vent.fin n | none => m.globalVentilationU F)).nf || (un.uaExt F m).nf) = false := by
+            intro un hun
+            obtain ⟨h1, h2, h3, n, h4, h5⟩ := hok un hun
+            rw [h4, uCondUncond_finite F _ _ _ _ n harea hrf h2 h3 h5, h1]
+            rfl
+          split
+          · exact key nx hnxm
+          · exact key sp hspm
+
 end Cte.C14
